@@ -30,6 +30,7 @@ import (
 	"go/printer"
 	"go/token"
 	"go/types"
+	"hash/fnv"
 	"math/big"
 	"os"
 	"sort"
@@ -131,12 +132,31 @@ type fn struct {
 	prefixLen int                 // Prefix mode: how many top-level statements were translated
 	// fieldSet: a field of an opaque variable the function has assigned (`position.PositionHealth = h`): later reads read the assigned value
 	fieldSet map[string]string
-	tmp      int
+	// assignedNames: every identifier the function body assigns (`x = ..`, `x := ..`, `x++`): a scalar parameter that is NOT among them keeps
+	// its value, so a read of the outside world may depend on it (`pool.SwapOutAmtGivenIn(ctx, .., swapFee, ..)`)
+	assignedNames map[string]bool
+	tmp           int
 }
 
 type tr struct {
 	all map[string]*fn // key: pkgpath + "." + name
 	f   *fn
+}
+
+// assignedTwice: the body assigns the name in more than one statement
+func (f *fn) assignedTwice(name string) bool {
+	n := 0
+	ast.Inspect(f.decl.Body, func(x ast.Node) bool {
+		if a, ok := x.(*ast.AssignStmt); ok {
+			for _, l := range a.Lhs {
+				if id, ok := l.(*ast.Ident); ok && id.Name == name {
+					n++
+				}
+			}
+		}
+		return true
+	})
+	return n > 1
 }
 
 func (t *tr) text(n ast.Node) string {
@@ -231,6 +251,12 @@ func (t *tr) norm(e ast.Expr, depth int) string {
 		return x.Op.String() + t.norm(x.X, depth+1)
 	case *ast.BinaryExpr:
 		return t.norm(x.X, depth+1) + " " + x.Op.String() + " " + t.norm(x.Y, depth+1)
+	case *ast.CompositeLit:
+		var es []string
+		for _, el := range x.Elts {
+			es = append(es, t.norm(el, depth+1))
+		}
+		return t.text(x.Type) + "{" + strings.Join(es, ", ") + "}"
 	}
 	return t.text(e)
 }
@@ -245,6 +271,12 @@ func (t *tr) opaqueArg(e ast.Expr) bool {
 		if id, isId := n.(*ast.Ident); isId {
 			if v, isVar := t.f.pkg.TypesInfo.Uses[id].(*types.Var); isVar && !v.IsField() {
 				vk := kindOf(v.Type())
+				if _, aliased := t.f.alias[id.Name]; aliased {
+					return ok // a local that stands for an opaque expression (`tokensIn := sdk.Coins{tokenIn}`)
+				}
+				if _, isPar := t.f.parIx[id.Name]; isPar && !t.f.assignedNames[id.Name] && (vk == kDec || vk == kInt || vk == kMach || vk == kBool) {
+					return ok // a scalar parameter the function never assigns: the read may depend on it, it is still one value per call
+				}
 				if vk != kOpaque && vk != kString {
 					ok = false // depends on a computed scalar: not a free term
 				}
@@ -665,6 +697,11 @@ func (t *tr) freeCall(c *ast.CallExpr) bool {
 func (t *tr) freeResult(c *ast.CallExpr, j int, k kind, suffix string) string {
 	src := t.text(c) + suffix
 	name := ident(strings.ReplaceAll(strings.ReplaceAll(src, "()", ""), "*", ""))
+	if len(name) > 100 { // a call with a long argument list: callee + hash of the normalised call + result index
+		h := fnv.New32a()
+		h.Write([]byte(t.norm(c, 0)))
+		name = fmt.Sprintf("%s_x%08x%s", ident(t.text(c.Fun)), h.Sum32(), ident(suffix))
+	}
 	if _, ok := t.f.freeT[name]; !ok {
 		t.f.free = append(t.f.free, name)
 		t.f.freeT[name] = src
@@ -1019,6 +1056,10 @@ func (t *tr) stmts(list []ast.Stmt, tail []string) []string {
 				}
 				if x.Tok != token.DEFINE && x.Tok != token.ASSIGN {
 					t.bad(x, "assignment operator")
+				}
+				if _, isLit := x.Rhs[j].(*ast.CompositeLit); isLit && x.Tok == token.DEFINE && t.opaqueArg(x.Rhs[j]) && !t.f.assignedTwice(id.Name) {
+					t.f.alias[id.Name] = x.Rhs[j] // `tokensIn := sdk.Coins{tokenIn}`: a container built from opaque parts, only ever passed on
+					continue
 				}
 				if lk := kindOf(t.typeOf(x.Lhs[j])); lk == kOpaque || lk == kString {
 					if _, again := t.f.alias[id.Name]; again || !t.opaqueArg(x.Rhs[j]) {
@@ -1391,7 +1432,32 @@ func main() {
 			fail("function not found: " + s.Pkg + " " + s.Func)
 		}
 		f := &fn{spec: s, pkg: p, decl: decl, freeT: map[string]string{}, freeK: map[string]kind{}, freeN: map[string]string{},
-			alias: map[string]ast.Expr{}, parIx: map[string]int{}, calls: map[string]bool{}, fieldSet: map[string]string{}}
+			alias: map[string]ast.Expr{}, parIx: map[string]int{}, calls: map[string]bool{}, fieldSet: map[string]string{}, assignedNames: map[string]bool{}}
+		if decl.Body != nil {
+			ast.Inspect(decl.Body, func(n ast.Node) bool {
+				switch a := n.(type) {
+				case *ast.AssignStmt:
+					for _, l := range a.Lhs {
+						if id, ok := l.(*ast.Ident); ok {
+							f.assignedNames[id.Name] = true
+						}
+					}
+				case *ast.IncDecStmt:
+					if id, ok := a.X.(*ast.Ident); ok {
+						f.assignedNames[id.Name] = true
+					}
+				case *ast.UnaryExpr:
+					if a.Op == token.AND {
+						if id, ok := a.X.(*ast.Ident); ok {
+							if v, isVar := p.TypesInfo.Uses[id].(*types.Var); isVar && kindOf(v.Type()) != kOpaque {
+								f.assignedNames[id.Name] = true // address taken: may be written through the pointer
+							}
+						}
+					}
+				}
+				return true
+			})
+		}
 		ix := 0
 		for _, fl := range []*ast.FieldList{decl.Recv, decl.Type.Params} {
 			if fl == nil {
